@@ -70,6 +70,38 @@ CHECKS["C18"] = dict(
     technique="deterministic simulation with fault injection: seeded link-stall/schedule search over two engines + hostile segment generator with reference reassembler",
 )
 
+CHECKS["C07"] = dict(
+    level="exploration",
+    text="Real device + two/three real controllers with their own CAs (same operational node id on purpose). Rollback family: a fabric staged "
+         "under the fail-safe and used over CASE is rolled back by timer or ArmFailSafe(0); the old controller probes with its stale session "
+         "and fresh (resumed) CASE before and after another controller is commissioned into the re-used fabric index. Removal family: "
+         "RemoveFabric placed at a tape-chosen millisecond inside the victim's read traffic and CASE handshakes, then the index is re-used. "
+         "Oracles: behavioural probes (old credentials never work again, other fabrics keep working) plus invariants on every 100 ms device "
+         "probe (no live session / resumption record for a missing fabric or predating the current owner of its index), no panic.",
+    design="DESIGN.md §4 C07",
+    technique="deterministic simulation with fault injection: seeded placement of rollback/removal vs. traffic, network faults, schedule deviations; invariants + old-credential probes",
+)
+CHECKS["C08"] = dict(
+    level="fault_enumeration",
+    text="Full commissioning of a real device by a real Commissioner with one fault plan per run: KvBlobStore error / crash-before / crash-after at "
+         "mutating store operation k (every k of the history is hit many times), crash between polls at microsecond resolution, second crash "
+         "during recovery, plus light network faults; 200 s for restarts and fail-safe expiry; then the device state (fabric table, fail-safe, "
+         "sessions) and the store must agree and be either the pre-arm or the committed state. Limits: Ethernet device (network credentials "
+         "not exercised); the legal command order only (the out-of-order command matrix of the statement is not generated).",
+    design="DESIGN.md §4 C08",
+    technique="deterministic simulation with fault injection: crash/KV-error enumeration over the store operations of a commissioning history + seeded crash instants",
+    note=" Known limit: two-key (fabric + networks) atomicity of a wireless device is not simulated.",
+)
+CHECKS["C11"] = dict(
+    level="fault_enumeration",
+    text="Same world as C08. Oracles: a commissioning that was acknowledged to the commissioner survives every crash/restart (fabric table, ACL, "
+         "store) and the device is reachable again over a fresh CASE session once faults stop; start-up never fails; nothing of an "
+         "unacknowledged attempt is half-present. Limits: the writes 'outside a fail-safe' (ACL/group/binding/label writes), factory reset and "
+         "resumption-blob corruption listed in the statement are not generated yet.",
+    design="DESIGN.md §4 C11",
+    technique="deterministic simulation with fault injection: crash/KV-error enumeration + restart, durability oracle over acknowledged operations",
+)
+
 NOT_APPLICABLE = {
     "C05": "pure function of (ACL entries, accessor, request): no schedule, clock, fault or history to simulate; stateful neighbours are covered by C06/C07",
     "C16": "pure function of a byte string / value tree (TLV codec): no schedule, clock, fault, crash or history; fuzzing/Kani territory, not deterministic simulation",
